@@ -66,7 +66,7 @@ def run(ctx):
                 kw['delta'] = 0.125 * ge
             gs = GammaSurface(**kw)
             s1, s2, _ = gamma_grid(n, False, E)
-            got = gs.E_gsf(a1=s1.copy(), a2=s2.copy())
+            got = np.nan_to_num(gs.E_gsf(a1=s1.copy(), a2=s2.copy()), nan=1e6)
             recs.append({'ev': 'gsample', 'tag': tag, 'e': E.flatten().astype(int).tolist(), 'got': [int(round(x * S)) for x in got], 's': S, 'tol': 8})
             # through the data model
             gs2 = GammaSurface(model=DM(gs.model().json()))
@@ -75,13 +75,14 @@ def run(ctx):
             # periodicity at off-sample points, for queries in fractional, Cartesian and plotting coordinates
             q1 = rng.integers(0, 16, 6) / 16 + 1 / 32
             q2 = rng.integers(0, 16, 6) / 16 + 1 / 64
-            ii, jj = rng.integers(-2, 3, 6), rng.integers(-2, 3, 6)
+            ii, jj = rng.integers(-3, 4, 6), rng.integers(-3, 4, 6)
+            ii[0], jj[0], ii[1], jj[1] = -3, -2, 2, -3
             v0 = gs.E_gsf(a1=q1.copy(), a2=q2.copy())
-            v1 = gs.E_gsf(a1=q1 + ii, a2=q2 + jj)
+            v1 = np.nan_to_num(gs.E_gsf(a1=q1 + ii, a2=q2 + jj), nan=1e6)
             recs.append({'ev': 'gperiod', 'tag': tag + ':a12', 'v0': [int(round(x * S)) for x in v0], 'v1': [int(round(x * S)) for x in v1], 'tol': 8})
             pos0 = gs.a12_to_pos(q1, q2)
             pos1 = gs.a12_to_pos(q1 + ii, q2 + jj)
-            v2 = gs.E_gsf(pos=pos1)
+            v2 = np.nan_to_num(gs.E_gsf(pos=pos1), nan=1e6)
             recs.append({'ev': 'gperiod', 'tag': tag + ':pos', 'v0': [int(round(x * S)) for x in v0], 'v1': [int(round(x * S)) for x in np.ravel(v2)], 'tol': 8})
             x, y = gs.pos_to_xy(pos0)
             v3 = gs.E_gsf(x=x, y=y)
@@ -130,7 +131,7 @@ def run(ctx):
             tau[1, :] = taurow
             tau[:, 1] = taurow
             beta = rng.integers(0, 4, (3, 3)).astype(float)
-            alpha = [int(x) for x in rng.integers(0, 4, int(rng.integers(1, 3)))]
+            alpha = [[2], [0, 3], [1, 2], [2, 0, 1], [0, 0, 2], [3, 1]][pi % 6]
             opts = dict(cdiffelastic=bool(pi % 2), cdiffsurface=bool((pi // 2) % 2), cdiffstress=False, fullstress=True)
             pn = SDVPN(volterra=vol, gamma=gs, tau=tau, alpha=alpha, beta=beta, **opts)
             N = 12
